@@ -101,7 +101,17 @@ func (c *FnCtx) evalCall(st *State, call *ast.CallExpr) Val {
 		}
 		args := c.evalArgs(st, call, sig)
 		// a package-level function variable (a parser built from combinators) with an assumed contract
-		if id, ok := unparen(call.Fun).(*ast.Ident); ok {
+		var fid *ast.Ident
+		switch f := unparen(call.Fun).(type) {
+		case *ast.Ident:
+			fid = f
+		case *ast.SelectorExpr:
+			// pkg.Var(...) from another package
+			if _, isSel := c.info.Selections[f]; !isSel {
+				fid = f.Sel
+			}
+		}
+		if id := fid; id != nil {
 			if v, ok := c.info.ObjectOf(id).(*types.Var); ok && v.Pkg() != nil && v.Parent() == v.Pkg().Scope() {
 				if fs, ok := c.eng.contracts.Funcs[v.Pkg().Name()+"."+v.Name()]; ok {
 					return c.callByContract(st, fs, sig, nil, args, call.Pos(), v.Pkg().Name()+"."+v.Name())
